@@ -54,8 +54,8 @@ pub fn spec(id: &str) -> Option<CheckSpec> {
                 gen: g,
                 audits: a,
                 twin: Twin::None,
-                cases_quick: 1600,
-                cases_thorough: 40_000,
+                cases_quick: 12000,
+                cases_thorough: 120000,
                 ops_quick: 100,
                 ops_thorough: 300,
                 nontrivial: |s| {
@@ -79,6 +79,8 @@ pub fn spec(id: &str) -> Option<CheckSpec> {
             g.w.drop_range = 2;
             g.w.clear = 1;
             g.w.reopen = 1;
+            g.w.iter_open = 3;
+            g.w.iter_step = 6;
             g.blob = BlobMode::Either;
             g.verdicts = false;
             a.point = true;
@@ -90,12 +92,12 @@ pub fn spec(id: &str) -> Option<CheckSpec> {
                 gen: g,
                 audits: a,
                 twin: Twin::None,
-                cases_quick: 1200,
-                cases_thorough: 30_000,
+                cases_quick: 6000,
+                cases_thorough: 60000,
                 ops_quick: 90,
                 ops_thorough: 250,
                 nontrivial: |s| s.get("snap.reread_after_gc") > 0 && compaction_happened(s),
-                rule: "C01's histories plus snapshot open/release (<=6 live), ingestion, drop_range, clear on standard and blob trees; GC watermarks drawn from [0, min(live S)-1] biased to the top. Each snapshot's full answer (get of every pool key, full scan, len) is stored at first use and re-read after later ops; it must equal both the stored answer and the MVCC model. Non-trivial = a snapshot was re-read after a version change performed with a non-zero watermark AND a merging compaction ran. Distinct = hash of the case.",
+                rule: "C01's histories plus snapshot open/release (<=6 live), ingestion, drop_range, clear on standard and blob trees; GC watermarks drawn from [0, min(live S)-1] biased to the top. Each snapshot's full answer (get of every pool key, full scan, len) is stored at first use and re-read after later ops; it must equal both the stored answer and the MVCC model. Long-lived range iterators (<=3) are opened at a snapshot, kept across later ops and consumed piecemeal from both ends; they must keep yielding the model's answer as of their snapshot (they count as held views for the watermark). Non-trivial = a snapshot was re-read after a version change performed with a non-zero watermark AND a merging compaction ran. Distinct = hash of the case.",
                 assumptions: ASSUME_COMMON.to_vec(),
                 finale: None,
                 per_op: None,
@@ -119,8 +121,8 @@ pub fn spec(id: &str) -> Option<CheckSpec> {
                 gen: g,
                 audits: a,
                 twin: Twin::None,
-                cases_quick: 1600,
-                cases_thorough: 30_000,
+                cases_quick: 12000,
+                cases_thorough: 120000,
                 ops_quick: 90,
                 ops_thorough: 200,
                 nontrivial: |s| {
@@ -154,8 +156,8 @@ pub fn spec(id: &str) -> Option<CheckSpec> {
                 gen: g,
                 audits: a,
                 twin: Twin::None,
-                cases_quick: 1200,
-                cases_thorough: 30_000,
+                cases_quick: 8000,
+                cases_thorough: 80000,
                 ops_quick: 80,
                 ops_thorough: 250,
                 nontrivial: |s| s.get("reopen.rich_layout") > 0 && s.get("m.flush") > 0 && s.get("m.reopen") > 0,
@@ -185,8 +187,8 @@ pub fn spec(id: &str) -> Option<CheckSpec> {
                 gen: g,
                 audits: a,
                 twin: Twin::None,
-                cases_quick: 1200,
-                cases_thorough: 30_000,
+                cases_quick: 10000,
+                cases_thorough: 100000,
                 ops_quick: 100,
                 ops_thorough: 300,
                 nontrivial: |s| s.get("struct.3tables_and_shared_key") > 0,
@@ -213,8 +215,8 @@ pub fn spec(id: &str) -> Option<CheckSpec> {
                 gen: g,
                 audits: a,
                 twin: Twin::None,
-                cases_quick: 1600,
-                cases_thorough: 30_000,
+                cases_quick: 12000,
+                cases_thorough: 120000,
                 ops_quick: 100,
                 ops_thorough: 300,
                 nontrivial: |s| s.get("marks.decreased") > 0 || s.get("marks.max_is_ingested") > 0,
@@ -243,8 +245,8 @@ pub fn spec(id: &str) -> Option<CheckSpec> {
                 gen: g,
                 audits: a,
                 twin: Twin::None,
-                cases_quick: 1200,
-                cases_thorough: 30_000,
+                cases_quick: 6000,
+                cases_thorough: 60000,
                 ops_quick: 80,
                 ops_thorough: 250,
                 nontrivial: |s| s.get("m.ingest") > 0 && s.get("snap.reread_after_version_change") > 0 && compaction_happened(s),
@@ -274,8 +276,8 @@ pub fn spec(id: &str) -> Option<CheckSpec> {
                 gen: g,
                 audits: a,
                 twin: Twin::None,
-                cases_quick: 1200,
-                cases_thorough: 30_000,
+                cases_quick: 8000,
+                cases_thorough: 80000,
                 ops_quick: 80,
                 ops_thorough: 250,
                 nontrivial: |s| s.get("m.drop_range_dropped") > 0 && s.get("snap.reread_after_version_change") > 0,
@@ -303,8 +305,8 @@ pub fn spec(id: &str) -> Option<CheckSpec> {
                 gen: g,
                 audits: a,
                 twin: Twin::None,
-                cases_quick: 1200,
-                cases_thorough: 30_000,
+                cases_quick: 10000,
+                cases_thorough: 100000,
                 ops_quick: 100,
                 ops_thorough: 300,
                 nontrivial: |s| s.get("files.reclamation_checked_after_replacement") > 0,
@@ -348,8 +350,8 @@ pub fn spec(id: &str) -> Option<CheckSpec> {
                 gen: g,
                 audits: a,
                 twin: Twin::StdVsBlob,
-                cases_quick: 1000,
-                cases_thorough: 20_000,
+                cases_quick: 3000,
+                cases_thorough: 30000,
                 ops_quick: 90,
                 ops_thorough: 250,
                 nontrivial: |s| s.get("blob.file_left_version") > 0 && s.get("blob.pointers_checked") > 0,
@@ -379,8 +381,8 @@ pub fn spec(id: &str) -> Option<CheckSpec> {
                 gen: g,
                 audits: a,
                 twin: Twin::None,
-                cases_quick: 1200,
-                cases_thorough: 20_000,
+                cases_quick: 8000,
+                cases_thorough: 80000,
                 ops_quick: 90,
                 ops_thorough: 250,
                 nontrivial: |s| s.get("blob.partial_garbage") > 0,
@@ -417,8 +419,8 @@ pub fn spec(id: &str) -> Option<CheckSpec> {
                 gen: g,
                 audits: a,
                 twin: Twin::MultiCfg,
-                cases_quick: 700,
-                cases_thorough: 12_000,
+                cases_quick: 2400,
+                cases_thorough: 24000,
                 ops_quick: 80,
                 ops_thorough: 200,
                 nontrivial: |s| s.get("cfg.differ3") > 0 && (s.get("layout.3levels") > 0 || s.get("layout.multi_l0_runs") > 0),
@@ -454,8 +456,8 @@ pub fn spec(id: &str) -> Option<CheckSpec> {
                 gen: g,
                 audits: a,
                 twin: Twin::WeakStrong,
-                cases_quick: 1600,
-                cases_thorough: 30_000,
+                cases_quick: 8000,
+                cases_thorough: 80000,
                 ops_quick: 90,
                 ops_thorough: 250,
                 nontrivial: |s| s.get("w.remove_weak") > 0 && compaction_happened(s) && rich_layout(s),
@@ -495,8 +497,8 @@ pub fn spec(id: &str) -> Option<CheckSpec> {
                 gen: g,
                 audits: a,
                 twin: Twin::None,
-                cases_quick: 1200,
-                cases_thorough: 30_000,
+                cases_quick: 8000,
+                cases_thorough: 80000,
                 ops_quick: 80,
                 ops_thorough: 250,
                 nontrivial: |s| s.get("filter.newest_with_older_versions") > 0 && s.get("filter.replace") > 0 && s.get("filter.remove") + s.get("filter.weak_or_destroy_once") + s.get("filter.weak_or_destroy_multi") > 0,
